@@ -112,6 +112,56 @@ class Collector:
         return self.unresolved(rule, construct, loc, what,
                                detail_unrec or "shape of the code is outside the recognised idioms", **kw)
 
+    # ---- when is a leaf difference found by the matcher a verdict? --------------------------------------------
+    _NAMELESS = ("constant", "operator", "attribute", "keyword", "value")
+
+    def _unknown_locals(self, construct):
+        """locals of the def `construct` that the reference does not know (None: the def itself is unknown)"""
+        cache = self.__dict__.setdefault("_unk_cache", {})
+        if construct in cache:
+            return cache[construct]
+        res = None
+        repo = getattr(self, "repo", None)
+        if repo is not None:
+            from . import names
+            d = repo.defs.get(construct)
+            top = d
+            while top is not None and top.parent is not None:
+                top = top.parent
+            if d is not None:
+                mod = d.module.name
+                qual = d.qualname[len(mod) + 1:]
+                res = names.unknown_locals(d.node, mod, qual)
+                if res is not None and top is not d:
+                    # names of the enclosing function are visible here too
+                    up = names.unknown_locals(top.node, mod, top.qualname[len(mod) + 1:])
+                    res = res | (up or set())
+        cache[construct] = res
+        return res
+
+    def definite_leaf(self, construct, node, diffs) -> bool:
+        """The statement the rule is about is there and says something else -- only when it is identified without
+        relying on the differing leaf and every local in it is one the rule knows (sa/names.py): a statement over
+        temporaries or helpers a later edit introduced is another spelling, never a verdict."""
+        import ast as _ast
+        if node is None or not diffs:
+            return False
+        unk = self._unknown_locals(construct)
+        if unk is None:
+            return False
+        ids = {n.id for n in _ast.walk(node) if isinstance(n, _ast.Name)}
+        if ids & unk:
+            return False
+        targets = set()
+        if isinstance(node, _ast.Assign):
+            targets = {t.id for t in node.targets if isinstance(t, _ast.Name)}
+        elif isinstance(node, (_ast.AugAssign, _ast.AnnAssign)) and isinstance(node.target, _ast.Name):
+            targets = {node.target.id}
+        for kind, a, b in diffs:
+            if kind == "name" and (a in targets or a in unk):
+                return False  # the bound name is what identifies an assignment
+        return True
+
     def text(self, rule, construct, loc, what, actual, accepted, fixed=(), stmt=None, facts=None):
         """Three-way comparison of a piece of repo code with the accepted forms of a rule
         (see sa/match.py): same -> OK; same skeleton but a different constant / attribute /
@@ -123,7 +173,7 @@ class Collector:
         src = (actual if isinstance(actual, str) else norm_src(actual)) if actual is not None else ""
         if v == match.SAME:
             return self.ok(rule, construct, loc, what, src[:100], stmt=stmt, facts=facts)
-        if v == match.LEAF:
+        if v == match.LEAF and isinstance(actual, ast.AST) and self.definite_leaf(construct, actual, d):
             return self.add(rule, construct, loc, what, VIOLATION,
                             f"`{src[:120]}` differs from the form the definition requires: {match.describe(d)}",
                             stmt=stmt, facts=facts, definite=True)
@@ -140,7 +190,7 @@ class Collector:
         loc = d.loc(node) if node is not None else d.loc()
         if v == match.SAME:
             return self.ok(rule, construct, loc, what, norm_src(node)[:100], stmt=stmt)
-        if v == match.LEAF:
+        if v == match.LEAF and self.definite_leaf(d.qualname, node, diffs):
             return self.add(rule, construct, loc, what, VIOLATION,
                             f"`{norm_src(node)[:120]}` differs from the form the definition requires: {match.describe(diffs)}",
                             stmt=stmt, definite=True)
@@ -181,7 +231,7 @@ class Collector:
             if v == match.SAME:
                 out.append(self.ok(rule, construct, loc, what, norm_src(node)[:100], stmt=key))
                 self._dominance(rule, construct, d, stmts, node, what, key)
-            elif v == match.LEAF:
+            elif v == match.LEAF and self.definite_leaf(d.qualname, node, diffs):
                 out.append(self.add(rule, construct, loc, what, VIOLATION,
                                     f"`{norm_src(node)[:120]}` differs from the form the definition requires: {match.describe(diffs)}",
                                     stmt=key, definite=True))
